@@ -6,7 +6,7 @@
 (* Property-level model.  A URL is a sequence of segments, "extends" is    *)
 (* the prefix order on sequences (the harness concatenates the segments,   *)
 (* so it is also the prefix order of the concrete strings).  Every region  *)
-(* owns a family of prefix-related URLs  a < ax, b  plus two one-shot URLs *)
+(* owns a family of URLs  a < ax (prefix-related), b, c  and one-shot URLs *)
 (* t, u; the asset URL g is shared by all regions, rg is region-specific.  *)
 (* Wrapper and proxy-only URLs are chosen by the proxy: they are symbols   *)
 (* ("?W..", "?P..") that the harness binds to the observed URL.            *)
@@ -21,7 +21,7 @@ EXTENDS Naturals, Sequences, FiniteSets, TLC
 CONSTANTS NR,        \* regions 1..NR; 1 and 2 belong to session 1, the others to session 2
           MaxSeed,   \* seed exchanges explored in one behaviour
           MaxTemp,   \* live one-shot caps per region
-          Grants     \* which grant templates the simulators use (subset of 1..7)
+          Grants     \* which grant templates the simulators use (subset of 1..8)
 
 VARIABLES caps, pend, nseed,            \* state
           lastG, firstP, treg, tres     \* ghosts (functions of the history)
@@ -40,6 +40,7 @@ SeedUrl(r) == U(r, "s")
 UrlA(r) == U(r, "a")
 UrlAx(r) == U(r, "a") \o <<"x">>
 UrlB(r) == U(r, "b")
+UrlC(r) == U(r, "c")
 AssetG == <<"g">>
 AssetR(r) == U(r, "g")
 TempUrls(r) == {U(r, "t"), U(r, "u")}
@@ -58,6 +59,8 @@ T(r, i) ==
       [] i = 5 -> ("GetMesh" :> AssetG)
       [] i = 6 -> ("GetMesh" :> AssetG) @@ ("ViewerAsset" :> AssetG) @@ ("CapB" :> UrlB(r))
       [] i = 7 -> ("ViewerAsset" :> AssetR(r))
+      [] i = 8 -> ("CapA" :> UrlC(r))          \* with 1 / 2, used repeatedly: re-grants of an EARLIER URL
+                                               \* of the same name (a c a, a c a c, a ax a ..)
 
 (***************************** queries *************************************)
 EntriesOf(c) == UNION {{[r |-> rn[1], n |-> rn[2], t |-> c[rn[1]][rn[2]][i].t, u |-> c[rn[1]][rn[2]][i].u] :
@@ -167,7 +170,7 @@ ResolveTemp(q) ==
     /\ UNCHANGED <<pend, nseed, lastG, firstP, treg>>
 
 Next == \/ \E r \in Regions : \/ \E wp \in BOOLEAN : SeedReq(r, wp)
-                              \/ \E i \in 1..7 : SeedResp(r, i)
+                              \/ \E i \in 1..8 : SeedResp(r, i)
                               \/ \E u \in TempUrls(r) : RegisterTemp(r, u)
                               \/ RegisterProxy(r)
         \/ \E q \in TempReqs : ResolveTemp(q)
@@ -185,7 +188,7 @@ Attributed ==
 (* ... and nothing else resolves *)
 OnlyGranted ==
     LET E == EntriesOf(caps) IN
-    \A r \in Regions : \A u \in {UrlA(r), UrlAx(r), UrlB(r), AssetR(r), AssetG} \cup TempUrls(r) :
+    \A r \in Regions : \A u \in {UrlA(r), UrlAx(r), UrlB(r), UrlC(r), AssetR(r), AssetG} \cup TempUrls(r) :
         (\A e \in E : ~IsPre(e.u, u)) => AccIn(E, u) = {None4} /\ AccIn(E, Ext(u)) = {None4}
 (* lookup by name yields the most recent grant (one-shot caps: see TempOnce) *)
 Newest == \A r \in Regions : \A n \in Names \ {"UpTemp"} : ByName(r, n) = lastG[r][n]
@@ -218,7 +221,7 @@ SeedRespOK ==
 ProxyStable == \A r \in Regions : firstP[r] # NoUrl => OutRegisterProxy(r) = firstP[r]
 
 (***************************** observation (binding) ***********************)
-StaticUrls == UNION {{SeedUrl(r), UrlA(r), UrlAx(r), UrlB(r), AssetR(r)} \cup TempUrls(r) : r \in Regions}
+StaticUrls == UNION {{SeedUrl(r), UrlA(r), UrlAx(r), UrlB(r), UrlC(r), AssetR(r)} \cup TempUrls(r) : r \in Regions}
                  \cup {AssetG}
 ReqsIn(E) == LET base == StaticUrls \cup {e.u : e \in E}
              IN base \cup {Ext(u) : u \in base} \cup {<<"zz">>}
